@@ -196,7 +196,7 @@ class C01:
             "capacity": rng.choice([1, 2, 300]), "auto_reload": rng.chance(0.7),
             "uptodate": rng.choice(["fs-like", "sync", "none"]), "ext": rng.choice([None, ".liquid"]),
             "templates": templates, "mains": mains, "datas": datas, "clients": clients, "override": override,
-            "loader_faults": loader_faults,
+            "loader_faults": loader_faults, "factory": rng.chance(0.25),
             "sched_seed": rng.randrange(1 << 30),
             "lat": {"max": 0.01, "zero_p": rng.choice([0.1, 0.4]), "stall_p": rng.choice([0.0, 0.03])},
             "profile": rng.chance(0.04),
@@ -219,6 +219,10 @@ class C01:
             root = fs.path("root")
             if kind == "fs" and sc.get("override"):
                 return FileSystemLoader([fs.path("hi"), root], ext=sc["ext"])
+            if sc.get("factory"):      # the documented factory builds the same loaders
+                return liquid.make_file_system_loader(root, ext=sc["ext"], auto_reload=sc["auto_reload"],
+                                                      namespace_key=sc["ns_key"],
+                                                      cache_size=sc["capacity"] if kind == "cfs" else 0)
             return FileSystemLoader(root, ext=sc["ext"]) if kind == "fs" else \
                 CachingFileSystemLoader(root, ext=sc["ext"], **kw)
         if kind == "pkg":
@@ -236,6 +240,9 @@ class C01:
         rest = {("", n): sources[n] for n in names[1::2]}
         subs = [DictLoader(half), StaticSimLoader(rest, loop_ref, sc["uptodate"], namespaced=False, faults=lf),
                 FileSystemLoader(fs.path("root"))]
+        if sc.get("factory"):
+            return liquid.make_choice_loader(subs, auto_reload=sc["auto_reload"], namespace_key=sc["ns_key"],
+                                             cache_size=sc["capacity"] if kind == "cchoice" else 0)
         return ChoiceLoader(subs) if kind == "choice" else CachingChoiceLoader(subs, **kw)
 
     # -- execution ---------------------------------------------------------------
